@@ -106,8 +106,12 @@ pub fn run(ctx: &mut Ctx) {
         let rsk = p256::SecretKey::random(&mut rng);
         let ep = rsk.public_key().to_encoded_point(false);
         let (x, y) = (ep.x().unwrap().to_vec(), ep.y().unwrap().to_vec());
-        let form = i % 4;
+        let form = i % 5;
+        // form 4: an extra COSE_Key member (label -65537) holding 66 000 bytes: EReaderKeyBytes and with them the
+        // SessionTranscriptBytes are longer than 65 535 bytes
+        let big: Vec<u8> = (0..66_000u32).map(|j| (j % 251) as u8).collect();
         let erk_bytes: Vec<u8> = match form {
+            4 => [vec![0xa5, 0x01, 0x02, 0x20, 0x01, 0x21, 0x58, 0x20], x.clone(), vec![0x22, 0x58, 0x20], y.clone(), vec![0x3a, 0x00, 0x01, 0x00, 0x00, 0x5a, 0x00, 0x01, 0x01, 0xd0], big.clone()].concat(),
             0 => [vec![0xa4, 0x20, 0x01, 0x21, 0x58, 0x20], x.clone(), vec![0x22, 0x58, 0x20], y.clone(), vec![0x01, 0x02]].concat(),
             1 => [vec![0xa4, 0x01, 0x18, 0x02, 0x20, 0x18, 0x01, 0x21, 0x59, 0x00, 0x20], x.clone(), vec![0x22, 0x58, 0x20], y.clone()].concat(),
             2 => [vec![0xbf, 0x01, 0x02, 0x20, 0x01, 0x21, 0x58, 0x20], x.clone(), vec![0x22, 0x58, 0x20], y.clone(), vec![0xff]].concat(),
@@ -144,8 +148,10 @@ pub fn run(ctx: &mut Ctx) {
         let dsk = p256::SecretKey::random(&mut rng);
         let ep = dsk.public_key().to_encoded_point(false);
         let (x, y) = (ep.x().unwrap().to_vec(), ep.y().unwrap().to_vec());
-        let form = i % 4;
-        let key_bytes: Vec<u8> = if form % 2 == 0 { [vec![0xa4, 0x01, 0x02, 0x20, 0x01, 0x21, 0x58, 0x20], x.clone(), vec![0x22, 0x58, 0x20], y.clone()].concat() }
+        let form = i % 5;
+        let big: Vec<u8> = (0..66_000u32).map(|j| (j % 251) as u8).collect();
+        let key_bytes: Vec<u8> = if form == 4 { [vec![0xa5, 0x01, 0x02, 0x20, 0x01, 0x21, 0x58, 0x20], x.clone(), vec![0x22, 0x58, 0x20], y.clone(), vec![0x3a, 0x00, 0x01, 0x00, 0x00, 0x5a, 0x00, 0x01, 0x01, 0xd0], big.clone()].concat() }
+                                 else if form % 2 == 0 { [vec![0xa4, 0x01, 0x02, 0x20, 0x01, 0x21, 0x58, 0x20], x.clone(), vec![0x22, 0x58, 0x20], y.clone()].concat() }
                                  else { [vec![0xa4, 0x20, 0x01, 0x21, 0x58, 0x20], x.clone(), vec![0x22, 0x58, 0x20], y.clone(), vec![0x01, 0x02]].concat() };
         let uuid: [u8; 16] = rng.gen();
         let mut de_bytes: Vec<u8> = vec![];
@@ -163,6 +169,12 @@ pub fn run(ctx: &mut Ctx) {
                 de_bytes.extend(&key_bytes);
                 de_bytes.extend([0x18, 0x02, 0x81, 0x83, 0x02, 0x01, 0xa3, 0x00, 0xf4, 0x01, 0xf5, 0x0b, 0x50]);
                 de_bytes.extend(uuid);
+            }
+            // EDeviceKeyBytes (and the engagement, and the transcript) longer than 65 535 bytes
+            4 => {
+                de_bytes.extend([0xa2, 0x00, 0x63, b'1', b'.', b'0', 0x01, 0x82, 0x01, 0xd8, 0x18, 0x5a]);
+                de_bytes.extend((key_bytes.len() as u32).to_be_bytes());
+                de_bytes.extend(&key_bytes);
             }
             // no retrieval methods, indefinite-length outer map
             _ => {
@@ -222,7 +234,7 @@ pub fn run(ctx: &mut Ctx) {
         let Ok(de) = Tag24::<DeviceEngagement>::from_bytes(de_bytes.clone()) else { continue };
         let (ho, ho_c): (Handover, Value) = match i % 4 {
             0 => (Handover::QR, Value::Null),
-            1 => { let hs: Vec<u8> = (0..ctx.rng.gen_range(0..30)).map(|_| ctx.rng.gen()).collect(); (Handover::NFC(ByteStr::from(hs.clone()), None), arr(vec![bytes(&hs), Value::Null])) }
+            1 => { let hl = if i % 20 == 5 { 65_536 + ctx.rng.gen_range(0..3000) } else { ctx.rng.gen_range(0..30) }; let hs: Vec<u8> = (0..hl).map(|_| ctx.rng.gen()).collect(); (Handover::NFC(ByteStr::from(hs.clone()), None), arr(vec![bytes(&hs), Value::Null])) }
             2 => { let hs: Vec<u8> = (0..5).map(|_| ctx.rng.gen()).collect(); let hr: Vec<u8> = (0..7).map(|_| ctx.rng.gen()).collect(); (Handover::NFC(ByteStr::from(hs.clone()), Some(ByteStr::from(hr.clone()))), arr(vec![bytes(&hs), bytes(&hr)])) }
             _ => (Handover::OID4VP("nonce-é".into(), "aud".into()), arr(vec![text("nonce-é"), text("aud")])),
         };
@@ -245,6 +257,11 @@ pub fn run(ctx: &mut Ctx) {
         let mut y2 = y.clone(); y2[ctx.rng.gen_range(0..32)] ^= 1 << ctx.rng.gen_range(0..8);
         shared_secret_case(ctx, "key:off-curve", CoseKey::EC2 { crv: EC2Curve::P256, x: x.clone(), y: EC2Y::Value(y2) });
         shared_secret_case(ctx, "key:zero", CoseKey::EC2 { crv: EC2Curve::P256, x: vec![0; 32], y: EC2Y::Value(vec![0; 32]) });
+        // the 64 octets of a REAL point cut elsewhere than 32 | 32
+        let xy = [x.clone(), y.clone()].concat();
+        for cut in [31usize, 33, 30, 16, 48, 0, 64, 1, 63] {
+            shared_secret_case(ctx, "key:real-point-cut-elsewhere", CoseKey::EC2 { crv: EC2Curve::P256, x: xy[..cut].to_vec(), y: EC2Y::Value(xy[cut..].to_vec()) });
+        }
         for crv in [EC2Curve::P384, EC2Curve::P521, EC2Curve::P256K] {
             shared_secret_case(ctx, "key:other-curve", CoseKey::EC2 { crv, x: x.clone(), y: EC2Y::Value(y.clone()) });
         }
